@@ -1,10 +1,127 @@
 import PhysisModel.Base.Proto
-namespace Physis.Driver.C03
-open Physis Physis.Proto
+import PhysisModel.Base.FsText
+import PhysisModel.Model.Patch
+import PhysisModel.Spec.ZiPatch
+/-!
+Driver for C03.  Case grammar (one line):
 
-/-- one case line in, one answer line out (see `Base/Proto.lean`) -/
+```
+apply api=<zipatch|game|boot> tree=<tree> cmds=<cmd>,<cmd>,…          one patch
+chain api=<…> tree=<tree> cmds=<cmd>,… cmds=<cmd>,… …                  several patches, in order
+cmd := T:<platform>:<region>:<debug>:<version>:<deleted>:<seek>
+     | X:<status>:<version>:<install>     | I:<A|D>:<0|1>:<hash>:<off>:<num>
+     | FH2:<namehex>:<depot>  | FH3:<namehex>:<n1>.<n2>.….<n13>  | APLY:<opt>:<val>
+     | ADIR:<namehex> | DELD:<namehex>
+     | A:<main>:<sub>:<file>:<off>:<del>:<content>          (content length = 128·blocks)
+     | D:<main>:<sub>:<file>:<off>:<num> | E:<main>:<sub>:<file>:<off>:<num>
+     | H:<D|I>:<V|I|D>:<main>:<sub>:<file>:<content>        (1024 bytes)
+     | FA:<off>:<exp>:<path>:<block>;<block>;…  (block := r<content> | z<compressed hex>_<content>; `-` = none)
+     | FD:<exp>:<path> | FR:<exp>:<path> | FM:<exp>:<path>
+```
+`cmds=-` is the empty list.  The answer's input field is `<api> <patch hex> …` — the patches
+encoded by `Spec.ZiPatch.encodePatch` (the harness takes the start tree from the case line).
+-/
+namespace Physis.Driver.C03
+open Physis Physis.Proto Physis.Fs Physis.FsText Physis.Spec.ZiPatch
+
+/-- tail-recursive hex (patches can be long) -/
+def toHexFast (bs : Bytes) : String :=
+  if bs.isEmpty then "-" else
+  String.ofList (bs.foldl (fun acc b => Bytes.hexDigit (b.toNat % 16) :: Bytes.hexDigit (b.toNat / 16) :: acc) []).reverse
+
+def outcomeStr : Patch.Outcome → String
+  | .ok => "ok" | .parseError => "err:ParseError" | .ioError => "err:InvalidPatchFile" | .panic => "panic"
+
+def stripKey (k : String) (s : String) : Option String :=
+  if s.startsWith (k ++ "=") then some (s.drop (k.length + 1)).toString else none
+
+def u8? (s : String) : Option UInt8 := s.toNat?.bind fun n => if n < 256 then some n.toUInt8 else none
+def u16? (s : String) : Option UInt16 := s.toNat?.bind fun n => if n < 65536 then some n.toUInt16 else none
+def u32? (s : String) : Option UInt32 := s.toNat?.bind fun n => if n < 2 ^ 32 then some n.toUInt32 else none
+def u64? (s : String) : Option UInt64 := s.toNat?.bind fun n => if n < 2 ^ 64 then some n.toUInt64 else none
+
+def parseBlock (s : String) : Option Block :=
+  if s.startsWith "r" then (parseContent (s.drop 1).toString).map Block.raw
+  else if s.startsWith "z" then
+    match (s.drop 1).toString.splitOn "_" with
+    | [c, d] => do
+      let c ← Bytes.ofHexFast c
+      let d ← parseContent d
+      pure (Block.deflated c d)
+    | _ => none
+  else none
+
+def pathBytes (s : String) : Option Bytes :=
+  if s.isEmpty then none else some (Bytes.ofString s)
+
+def parseCmd (s : String) : Option Cmd :=
+  match s.splitOn ":" with
+  | ["T", pl, rg, dbg, v, del, sk] => do
+    pure (.target (← u16? pl) (← u16? rg) (← u16? dbg) (← u16? v) (← u64? del) (← u64? sk))
+  | ["X", st, v, inst] => do pure (.patchInfo (← u8? st) (← u8? v) (← u64? inst))
+  | ["I", c, syn, h, off, num] => do
+    let add ← (if c == "A" then some true else if c == "D" then some false else none)
+    let syn ← (if syn == "1" then some true else if syn == "0" then some false else none)
+    pure (.index add syn (← u64? h) (← u32? off) (← u32? num))
+  | ["FH2", name, depot] => do pure (.fhdr2 (← Bytes.ofHex name) (← u32? depot))
+  | ["FH3", name, nums] => do
+    let ns ← (nums.splitOn ".").mapM u32?
+    pure (.fhdr3 (← Bytes.ofHex name) ns)
+  | ["APLY", o, v] => do pure (.aply (← u32? o) (← u32? v))
+  | ["ADIR", name] => do pure (.adir (← Bytes.ofHex name))
+  | ["DELD", name] => do pure (.deld (← Bytes.ofHex name))
+  | ["A", m, sub, f, off, del, data] => do
+    pure (.addData (← u16? m) (← u16? sub) (← u32? f) (← u32? off) (← u32? del) (← parseContent data))
+  | ["D", m, sub, f, off, num] => do
+    pure (.deleteData (← u16? m) (← u16? sub) (← u32? f) (← u32? off) (← u32? num))
+  | ["E", m, sub, f, off, num] => do
+    pure (.expandData (← u16? m) (← u16? sub) (← u32? f) (← u32? off) (← u32? num))
+  | ["H", fk, hk, m, sub, f, data] => do
+    let isIdx ← (if fk == "I" then some true else if fk == "D" then some false else none)
+    let k ← (if hk == "V" then some HeaderKind.version else if hk == "I" then some HeaderKind.index
+      else if hk == "D" then some HeaderKind.data else none)
+    pure (.header isIdx k (← u16? m) (← u16? sub) (← u32? f) (← parseContent data))
+  | ["FA", off, exp, path, blocks] => do
+    let bs ← (if blocks == "-" then some [] else (blocks.splitOn ";").mapM parseBlock)
+    pure (.addFile (← u64? off) (← u16? exp) (← pathBytes path) bs)
+  | ["FD", exp, path] => do pure (.deleteFile (← u16? exp) (← pathBytes path))
+  | ["FR", exp, path] => do pure (.removeAll (← u16? exp) (← pathBytes path))
+  | ["FM", exp, path] => do pure (.mkDirTree (← u16? exp) (← pathBytes path))
+  | _ => none
+
+def parseCmds (s : String) : Option (List Cmd) :=
+  if s == "-" then some [] else (s.splitOn ",").mapM parseCmd
+
+/-- the (compressed, original) pairs travelling in the case: the driver's `inflate` -/
+def inflateTable (cs : List Cmd) : List (Bytes × Bytes) :=
+  cs.flatMap fun c => match c with
+    | .addFile _ _ _ blocks => blocks.filterMap fun b => match b with
+      | .deflated c d => some (c, d)
+      | .raw _ => none
+    | _ => []
+
+def tableInflate (tab : List (Bytes × Bytes)) (x : Bytes) (n : Nat) : Option Bytes :=
+  (tab.find? fun e => e.2.length == n && x.take e.1.length == e.1).map (·.2)
+
+def handleCase (api tree : String) (cmdss : List String) : String :=
+  match stripKey "api" api, (stripKey "tree" tree).bind parseTree, cmdss.mapM (fun s => (stripKey "cmds" s).bind parseCmds) with
+  | some api, some t, some pss =>
+    if !(api == "zipatch" || api == "game" || api == "boot") then bad else
+    if api == "boot" && !isFile t [Bytes.ofString "ffxivboot.ver"] then bad else
+    let patches := pss.map encodePatch
+    let inflate := tableInflate (inflateTable pss.flatten)
+    let (o, mt) := Patch.applyAll inflate patches t
+    let model := outcomeStr o ++ " " ++ showTree mt true
+    let input := " ".intercalate (api :: patches.map toHexFast)
+    match (if WFchain pss t then runChain pss t else none) with
+    | some st => answer input ("ok " ++ showTree st true) (if pss.flatten.isEmpty then ["triv"] else []) (some model)
+    | none => answer input model ["triv", "nwf"] (some model)
+  | _, _, _ => bad
+
 def handle (line : String) : String :=
   match fields line with
+  | ["apply", api, tree, cmds] => handleCase api tree [cmds]
+  | "chain" :: api :: tree :: cmdss => if cmdss.isEmpty then bad else handleCase api tree cmdss
   | _ => bad
 
 end Physis.Driver.C03
